@@ -277,7 +277,14 @@ def run(ctx):
         mixes = mixes + [p + z for p in pre for z in mixes[:10]]
         trunc = trunc + mixes
         rec = "right" if k % 2 == 0 else "left"
-        jobs.append({"queries": [{"op": "lark", "grammar": G["text"], "chars": cands, "bytes": bts + trunc, "recursion": rec, "timeout": 120}]})
+        q_ = {"op": "lark", "grammar": G["text"], "chars": cands, "bytes": bts + trunc, "recursion": rec, "timeout": 120}
+        if k % 3 == 1:
+            # a caller-supplied character set (the same characters as the default one): ONE set object is handed to every
+            # terminal's conversion, first for the character-level and then for the byte-level grammar
+            import string
+            q_["charset"] = sorted(string.printable)
+            ctx.dist("caller-supplied-charset")
+        jobs.append({"queries": [q_]})
         plan.append((G, cands, bts, trunc, rec))
     res = run_l(jobs)
     for (G, cands, bts, trunc, rec), r in zip(plan, res):
